@@ -558,7 +558,18 @@ def c05_scripts(rng, tier):
             base["degree"] = rng.choice(["Septic", "Quintic", "Cubic", "Linear"])
         else:
             base.update({"L": rng.choice([8, 16, 64]), "F": rng.choice([2, 4, 16, 128, 3, 100]),
-                         "interp": rng.choice(["Cubic", "Quadratic", "Linear"]), "probe": "linear"})
+                         "interp": rng.choice(["Cubic", "Quadratic", "Linear", "Nearest"]), "probe": "linear"})
+            if rng.random() < 0.3:
+                # positions that fall exactly half-way between two sub-filters (step = odd / 2F): ties of the
+                # nearest-point selection, at negative and positive positions alike (seeded change C05g)
+                F = rng.choice([2, 4, 16, 128])
+                odd = rng.choice([1, 3, 5, 7, 9, 13])
+                while Fraction(2 * F, odd) > 16 or Fraction(2 * F, odd) < Fraction(1, 16):
+                    F, odd = rng.choice([2, 4, 16]), rng.choice([1, 3, 5, 7, 9, 13, 27, 53])
+                base["F"] = F
+                base["interp"] = rng.choice(["Nearest", "Nearest", "Linear", "Quadratic", "Cubic"])
+                base["r"] = gen.rj(Fraction(2 * F, odd))
+                r = Fraction(2 * F, odd)
         insts = []
         for _ in range(rng.randrange(2, 5)):
             n = dict(base)
@@ -582,6 +593,46 @@ def c05_scripts(rng, tier):
                     o["out"] = "max"
                 elif u < 0.3:
                     o["out_extra"] = rng.randrange(1, 300)
+                ops.append(o)
+        S.append(ops)
+    # ---- async, VALUES through the real kernels: at ratios 2^k every position is exact in binary, so all
+    #      chunkings and both variants evaluate the same instants on the same samples and the output streams
+    #      are bit-identical (TwinBlocks: digests of 16-frame blocks of the stream). Signals with stretches of
+    #      exact zeros included (anything that short-cuts on silence - seeded change C05h).
+    for _ in range(n_gen):
+        fam = rng.choice(["Fast", "Sinc"])
+        r = rng.choice([Fraction(1), Fraction(2), Fraction(4), Fraction(1, 2), Fraction(1, 4), Fraction(8), Fraction(1)])
+        base = {"op": "new", "T": rng.choice([32, 64]), "ch": rng.choice([1, 2]), "r": gen.rj(r),
+                "maxrel": gen.rj(Fraction(2)), "signal": rng.choice(["noise", "burst", "burst"]), "seed": 11,
+                "blk": 16, "seg": rng.choice([64, 300, 1024, 2048])}
+        if fam == "Fast":
+            base["degree"] = rng.choice(gen.DEGREES)
+        else:
+            base.update({"L": rng.choice([8, 16, 64, 128]), "F": rng.choice([2, 4, 16, 128, 3, 100]),
+                         "interp": rng.choice(gen.INTERPS), "probe": "dispatch",
+                         "window": rng.choice(gen.WINDOWS)})
+            if base["F"] == 1:
+                base["F"] = 2
+        insts = []
+        for _i in range(rng.randrange(2, 5)):
+            n = dict(base)
+            n["kind"] = fam + rng.choice(["FixedIn", "FixedOut"])
+            n["chunk"] = rng.choice([1, 2, 3, 7, 16, 33, 64, 100, 256, 1024])
+            insts.append(n)
+        ops = [with_id(n, i) for i, n in enumerate(insts)]
+        for i in range(1, len(insts)):
+            ops.append({"op": "note", "twin": "blocks", "a": 0, "b": i})
+        want_out = rng.choice([600, 3000])
+        for i, n in enumerate(insts):
+            per_out = max(1.0, n["chunk"] * float(r)) if n["kind"].endswith("In") else n["chunk"]
+            calls = int(min(700, want_out / per_out + (base.get("L", 8) * 3) / max(1, n["chunk"]) + 4))
+            for c in range(calls):
+                if fam == "Sinc" and rng.random() < 0.1:
+                    for _r in range(rng.choice([1, 1, 2])):
+                        ops.append({"op": "set_chunk", "id": i, "n": rng.randrange(1, n["chunk"] + 1)})
+                o = {"op": "process", "id": i}
+                if rng.random() < 0.2:
+                    o["out"] = "max"
                 ops.append(o)
         S.append(ops)
     return S
